@@ -150,7 +150,59 @@ let ntt_case toks =
       else Printf.sprintf "%s# %s" (Buffer.contents mb) (Buffer.contents sb)
   | _ -> "badcase"
 
-let dispatch : (string * (string list -> string)) list ref = ref [ ("ops", ops_case); ("ntt", ntt_case) ]
+(* ------------------------------------------------------------------ C07/C08: expressions *)
+let rec parse_tree toks =
+  match toks with
+  | "a" :: r -> (M.ELeaf (nat_of_int 0), r) | "b" :: r -> (M.ELeaf (nat_of_int 1), r)
+  | "c" :: r -> (M.ELeaf (nat_of_int 2), r) | "s" :: r -> (M.ELeaf (nat_of_int 3), r)
+  | "add" :: r -> let (x, r) = parse_tree r in let (y, r) = parse_tree r in (M.EAdd (x, y), r)
+  | "sub" :: r -> let (x, r) = parse_tree r in let (y, r) = parse_tree r in (M.ESub (x, y), r)
+  | "mul" :: r -> let (x, r) = parse_tree r in let (y, r) = parse_tree r in (M.EMul (x, y), r)
+  | "eq" :: r -> let (x, r) = parse_tree r in let (y, r) = parse_tree r in (M.EEq (x, y), r)
+  | "neq" :: r -> let (x, r) = parse_tree r in let (y, r) = parse_tree r in (M.ENeq (x, y), r)
+  | "shoup3" :: r -> let (x, r) = parse_tree r in let (y, r) = parse_tree r in let (z, r) = parse_tree r in (M.EShoup3 (x, y, z), r)
+  | "cshoup" :: r -> let (x, r) = parse_tree r in (M.ECShoup x, r)
+  | _ -> failwith "tree"
+
+(* line: <op> <w> <n> <nm> <dst> T <k> <k tree tokens> <words of a> <words of b> <words of c> *)
+let expr_case toks =
+  match toks with
+  | op :: w :: n :: nm :: dst :: "T" :: k :: rest ->
+      let wi = int_of_string w and n = int_of_string n and nm = int_of_string nm and dst = int_of_string dst and k = int_of_string k in
+      let wz = czi wi in
+      let ttoks = take k rest and words = czl (drop k rest) in
+      let (isnz, ttoks) = (match ttoks with "nz" :: r -> (true, r) | _ -> (false, ttoks)) in
+      let (t, _) = parse_tree ttoks in
+      let top_eq = (match t with M.EEq _ -> true | _ -> false) in
+      let sz = n * nm in
+      let mres = Array.make 4 [] and sres = Array.make 4 [] in
+      let mbool = ref (if top_eq then true else false) and sbool = ref (if top_eq then true else false) in
+      for cm = 0 to nm - 1 do
+        let (p, pn, _, _) = row wi cm in
+        let sl off = take n (drop (off * sz + cm * n) words) in
+        let a = sl 0 and b = sl 1 and c = sl 2 in
+        let s = List.map (fun v -> match M.compute_shoup wz p v with Some q -> q | None -> czi (-1)) b in
+        let d0 = List.init n (fun i -> czi (7 + i + cm)) in
+        let ops = [ a; b; c; s ] in
+        let mv = M.eval_slice wz p pn ops t (nat_of_int n) and sv = M.spec_slice wz p ops t (nat_of_int n) in
+        if op = "bool" then begin
+          if top_eq then (mbool := !mbool && M.all_nzl mv; sbool := !sbool && M.all_nzl sv)
+          else (mbool := !mbool || M.any_nzl mv; sbool := !sbool || M.any_nzl sv)
+        end else begin
+          let pick r i orig = if dst = i then r else orig in
+          mres.(0) <- mres.(0) @ pick mv 0 d0; mres.(1) <- mres.(1) @ pick mv 1 a; mres.(2) <- mres.(2) @ pick mv 2 b; mres.(3) <- mres.(3) @ pick mv 3 c;
+          sres.(0) <- sres.(0) @ pick sv 0 d0; sres.(1) <- sres.(1) @ pick sv 1 a; sres.(2) <- sres.(2) @ pick sv 2 b; sres.(3) <- sres.(3) @ pick sv 3 c
+        end
+      done;
+      ignore isnz;
+      if op = "bool" then Printf.sprintf "%s # %s" (strb !mbool) (strb !sbool)
+      else if op = "assign" then
+        Printf.sprintf "%s | %s | %s | %s # %s | %s | %s | %s" (strl mres.(0)) (strl mres.(1)) (strl mres.(2)) (strl mres.(3))
+          (strl sres.(0)) (strl sres.(1)) (strl sres.(2)) (strl sres.(3))
+      else Printf.sprintf "%s # %s" (strl mres.(0)) (strl sres.(0))
+  | _ -> "badcase"
+
+let dispatch : (string * (string list -> string)) list ref = ref [ ("ops", ops_case); ("ntt", ntt_case); ("expr", expr_case) ]
 
 let () =
   let family = if Array.length Sys.argv > 1 then Sys.argv.(1) else "ops" in
